@@ -54,3 +54,618 @@ Proof.
     apply (follow_ok_dig c k Hk). }
   rewrite H1, H2, E. reflexivity.
 Qed.
+
+(* num_rest = fraction, then exponent; the numeral pattern replaced by a test *)
+Definition frac (s : bytes) : option (bytes * bytes) :=
+  match s with
+  | c :: r => if c =? 46
+              then match digits1 r with Some (d, k) => Some (46 :: d, k) | None => None end
+              else Some ([], s)
+  | [] => Some ([], s)
+  end.
+Definition expo (fr s2 : bytes) : option (bytes * bytes) :=
+  match s2 with
+  | c :: r =>
+    if (c =? 101) || (c =? 69) then
+      match r with
+      | sg :: r' =>
+        if (sg =? 43) || (sg =? 45)
+        then match digits1 r' with Some (d, k) => Some (fr ++ c :: sg :: d, k) | None => None end
+        else match digits1 r with Some (d, k) => Some (fr ++ c :: d, k) | None => None end
+      | [] => None
+      end
+    else Some (fr, s2)
+  | [] => Some (fr, s2)
+  end.
+
+Lemma num_rest_eq : forall s,
+  num_rest s = match frac s with None => None | Some (fr, s2) => expo fr s2 end.
+Proof.
+  intro s. unfold num_rest, frac, expo. destruct s as [|c r]; [reflexivity|].
+  destruct (N.eqb_spec c 46) as [->|Hn]; [reflexivity|].
+  destruct c as [|p]; [reflexivity|].
+  do 6 (try (destruct p as [p|p|]; try reflexivity)); congruence.
+Qed.
+
+Lemma frac_split : forall s fr r, frac s = Some (fr, r) -> s = fr ++ r.
+Proof.
+  unfold frac. intros s fr r H. destruct s as [|c s]; [injection H as <- <-; reflexivity|].
+  destruct (N.eqb_spec c 46) as [->|Hn]; [|injection H as <- <-; reflexivity].
+  destruct (digits1 s) as [[d k]|] eqn:E; [|discriminate]. injection H as <- <-.
+  simpl. f_equal. apply digits1_split. exact E.
+Qed.
+
+Lemma frac_app : forall s fr r k, frac s = Some (fr, r) -> (r = [] -> follow_ok k) ->
+  frac (s ++ k) = Some (fr, r ++ k).
+Proof.
+  unfold frac. intros s fr r k H Hk. destruct s as [|c s].
+  - injection H as <- <-. specialize (Hk eq_refl). simpl. destruct k as [|c k]; [reflexivity|].
+    rewrite (follow_ok_dot c k Hk). reflexivity.
+  - cbn [app]. destruct (c =? 46).
+    + destruct (digits1 s) as [[d k1]|] eqn:E; [|discriminate]. injection H as <- <-.
+      rewrite (digits1_app s d k1 k E Hk). reflexivity.
+    + injection H as <- <-. reflexivity.
+Qed.
+
+Lemma expo_split : forall fr s t r, expo fr s = Some (t, r) -> fr ++ s = t ++ r.
+Proof.
+  unfold expo. intros fr s t r H. destruct s as [|c s]; [injection H as <- <-; reflexivity|].
+  destruct ((c =? 101) || (c =? 69)); [|injection H as <- <-; reflexivity].
+  destruct s as [|sg s]; [discriminate|].
+  destruct ((sg =? 43) || (sg =? 45)).
+  - destruct (digits1 s) as [[d k]|] eqn:E; [|discriminate]. injection H as <- <-.
+    rewrite (digits1_split s d k E). rewrite <- app_assoc. reflexivity.
+  - destruct (digits1 (sg :: s)) as [[d k]|] eqn:E; [|discriminate]. injection H as <- <-.
+    rewrite (digits1_split _ d k E). rewrite <- app_assoc. reflexivity.
+Qed.
+
+Lemma expo_app : forall fr s t r k, expo fr s = Some (t, r) -> (r = [] -> follow_ok k) ->
+  expo fr (s ++ k) = Some (t, r ++ k).
+Proof.
+  unfold expo. intros fr s t r k H Hk. destruct s as [|c s].
+  - injection H as <- <-. specialize (Hk eq_refl). simpl. destruct k as [|c k]; [reflexivity|].
+    rewrite (follow_ok_e c k Hk). reflexivity.
+  - cbn [app]. destruct ((c =? 101) || (c =? 69)); [|injection H as <- <-; reflexivity].
+    destruct s as [|sg s]; [discriminate|]. cbn [app].
+    destruct ((sg =? 43) || (sg =? 45)).
+    + destruct (digits1 s) as [[d k1]|] eqn:E; [|discriminate]. injection H as <- <-.
+      rewrite (digits1_app s d k1 k E Hk). reflexivity.
+    + destruct (digits1 (sg :: s)) as [[d k1]|] eqn:E; [|discriminate]. injection H as <- <-.
+      change (sg :: s ++ k) with ((sg :: s) ++ k).
+      rewrite (digits1_app _ d k1 k E Hk). reflexivity.
+Qed.
+
+Lemma num_rest_split : forall s t r, num_rest s = Some (t, r) -> s = t ++ r.
+Proof.
+  intros s t r H. rewrite num_rest_eq in H. destruct (frac s) as [[fr s2]|] eqn:E; [|discriminate].
+  rewrite (frac_split s fr s2 E). apply expo_split. exact H.
+Qed.
+
+Lemma num_rest_app : forall s t r k, num_rest s = Some (t, r) -> (r = [] -> follow_ok k) ->
+  num_rest (s ++ k) = Some (t, r ++ k).
+Proof.
+  intros s t r k H Hk. rewrite num_rest_eq in H |- *.
+  destruct (frac s) as [[fr s2]|] eqn:E; [|discriminate].
+  rewrite (frac_app s fr s2 k E).
+  - apply expo_app; assumption.
+  - intros ->. apply Hk. unfold expo in H. injection H as _ <-. reflexivity.
+Qed.
+
+Definition num_body (sign s0 : bytes) : option (bytes * bytes) :=
+  match s0 with
+  | c :: r =>
+    if c =? 48 then
+      match num_rest r with Some (t, k) => Some (sign ++ 48 :: t, k) | None => None end
+    else if (49 <=? c) && (c <=? 57) then
+      match num_rest (drop_while is_dig r) with
+      | Some (t, k) => Some (sign ++ c :: take_while is_dig r ++ t, k)
+      | None => None
+      end
+    else None
+  | [] => None
+  end.
+
+Lemma scan_number_eq : forall s,
+  scan_number s = match s with
+                  | c :: r => if c =? 45 then num_body [45] r else num_body [] s
+                  | [] => None
+                  end.
+Proof.
+  intro s. unfold scan_number. destruct s as [|c r]; [reflexivity|].
+  destruct (N.eqb_spec c 45) as [->|Hn]; [reflexivity|].
+  destruct c as [|p]; [reflexivity|].
+  do 6 (try (destruct p as [p|p|]; try reflexivity)); congruence.
+Qed.
+
+Lemma num_body_split : forall sign s t r, num_body sign s = Some (t, r) -> sign ++ s = t ++ r.
+Proof.
+  unfold num_body. intros sign s t r H. destruct s as [|c s]; [discriminate|].
+  destruct (N.eqb_spec c 48) as [->|Hn].
+  - destruct (num_rest s) as [[t1 k1]|] eqn:E; [|discriminate]. injection H as <- <-.
+    rewrite (num_rest_split s t1 k1 E). rewrite <- app_assoc. reflexivity.
+  - destruct ((49 <=? c) && (c <=? 57)); [|discriminate].
+    destruct (num_rest (drop_while is_dig s)) as [[t1 k1]|] eqn:E; [|discriminate]. injection H as <- <-.
+    rewrite <- (take_drop_while is_dig s) at 1. rewrite (num_rest_split _ t1 k1 E).
+    rewrite <- !app_assoc. simpl. rewrite <- app_assoc. reflexivity.
+Qed.
+
+Lemma num_body_app : forall sign s t r k, num_body sign s = Some (t, r) -> (r = [] -> follow_ok k) ->
+  num_body sign (s ++ k) = Some (t, r ++ k).
+Proof.
+  unfold num_body. intros sign s t r k H Hk. destruct s as [|c s]; [discriminate|]. cbn [app].
+  destruct (c =? 48).
+  - destruct (num_rest s) as [[t1 k1]|] eqn:E; [|discriminate]. injection H as <- <-.
+    rewrite (num_rest_app s t1 k1 k E Hk). reflexivity.
+  - destruct ((49 <=? c) && (c <=? 57)); [|discriminate].
+    destruct (num_rest (drop_while is_dig s)) as [[t1 k1]|] eqn:E; [|discriminate]. injection H as <- <-.
+    destruct (tw_app is_dig s k) as [H1 H2].
+    { apply dw_stops. intro E0. rewrite E0 in E. rewrite num_rest_eq in E. simpl in E. injection E as _ <-.
+      specialize (Hk eq_refl). destruct k as [|x k]; [exact I|]. apply (follow_ok_dig x k Hk). }
+    rewrite H1, H2. rewrite (num_rest_app _ t1 k1 k E Hk). reflexivity.
+Qed.
+
+Lemma scan_number_split : forall s t r, scan_number s = Some (t, r) -> s = t ++ r.
+Proof.
+  intros s t r H. rewrite scan_number_eq in H. destruct s as [|c s]; [discriminate|].
+  destruct (N.eqb_spec c 45) as [->|Hn].
+  - apply (num_body_split [45] s t r H).
+  - apply (num_body_split [] (c :: s) t r H).
+Qed.
+
+Lemma scan_number_app : forall s t r k, scan_number s = Some (t, r) -> (r = [] -> follow_ok k) ->
+  scan_number (s ++ k) = Some (t, r ++ k).
+Proof.
+  intros s t r k H Hk. rewrite scan_number_eq in H |- *. destruct s as [|c s]; [discriminate|]. cbn [app].
+  destruct (c =? 45).
+  - apply num_body_app; assumption.
+  - apply (num_body_app [] (c :: s) t r k H Hk).
+Qed.
+
+(* a number token followed by something that cannot continue it is read back whole *)
+Lemma scan_number_tok : forall tok k, num_ok tok = true -> follow_ok k ->
+  scan_number (tok ++ k) = Some (tok, k).
+Proof.
+  unfold num_ok. intros tok k H Hk. destruct (scan_number tok) as [[t r]|] eqn:E; [|discriminate].
+  destruct r; [|discriminate].
+  pose proof (scan_number_split tok t [] E) as Hs. rewrite app_nil_r in Hs. subst t.
+  apply (scan_number_app tok tok [] k E). intros _. exact Hk.
+Qed.
+
+(* first byte of a number token *)
+Definition num_start (c : N) : bool := (c =? 45) || is_dig c.
+Lemma num_ok_start : forall tok, num_ok tok = true -> exists c r, tok = c :: r /\ num_start c = true.
+Proof.
+  unfold num_ok. intros tok H. rewrite scan_number_eq in H. destruct tok as [|c r]; [discriminate|].
+  exists c, r. split; [reflexivity|]. unfold num_start. destruct (c =? 45); [reflexivity|]. simpl.
+  unfold num_body in H. unfold is_dig.
+  destruct (N.eqb_spec c 48) as [->|Hn]; [reflexivity|].
+  destruct ((49 <=? c) && (c <=? 57)) eqn:E; [|discriminate].
+  apply andb_true_iff in E. destruct E as [E1 E2]. apply N.leb_le in E1, E2.
+  apply andb_true_iff. split; apply N.leb_le; lia.
+Qed.
+
+(* ================= values: definitions ================= *)
+
+(* strings and keys are valid UTF-8, number tokens are JSON numbers *)
+Fixpoint wf_value (v : jvalue) : bool :=
+  match v with
+  | JNum t => num_ok t
+  | JStr s => utf8_valid s
+  | JArr l => forallb wf_value l
+  | JObj m => forallb (fun kv => utf8_valid (fst kv) && wf_value (snd kv)) m
+  | _ => true
+  end.
+
+(* nesting depth: scalars 0, a container one more than its deepest member *)
+Fixpoint depth (v : jvalue) : N :=
+  match v with
+  | JArr l => 1 + fold_right (fun x a => N.max (depth x) a) 0 l
+  | JObj m => 1 + fold_right (fun kv a => N.max (depth (snd kv)) a) 0 m
+  | _ => 0
+  end.
+
+Definition enc_list : list jvalue -> bytes :=
+  fix ea (l : list jvalue) : bytes :=
+    match l with
+    | [] => []
+    | [x] => encode_value x
+    | x :: r => encode_value x ++ [44] ++ ea r
+    end.
+Definition enc_obj : list (bytes * jvalue) -> bytes :=
+  fix eo (l : list (bytes * jvalue)) : bytes :=
+    match l with
+    | [] => []
+    | [(k, x)] => encode_string k ++ [58] ++ encode_value x
+    | (k, x) :: r => encode_string k ++ [58] ++ encode_value x ++ [44] ++ eo r
+    end.
+
+Lemma encode_arr : forall l, encode_value (JArr l) = [91] ++ enc_list l ++ [93].
+Proof. reflexivity. Qed.
+Lemma encode_obj : forall m, encode_value (JObj m) = [123] ++ enc_obj m ++ [125].
+Proof. reflexivity. Qed.
+Lemma enc_list_one : forall x, enc_list [x] = encode_value x.
+Proof. reflexivity. Qed.
+Lemma enc_list_more : forall x y r, enc_list (x :: y :: r) = encode_value x ++ [44] ++ enc_list (y :: r).
+Proof. reflexivity. Qed.
+Lemma enc_obj_one : forall k x, enc_obj [(k, x)] = encode_string k ++ [58] ++ encode_value x.
+Proof. reflexivity. Qed.
+Lemma enc_obj_more : forall k x y r,
+  enc_obj ((k, x) :: y :: r) = encode_string k ++ [58] ++ encode_value x ++ [44] ++ enc_obj (y :: r).
+Proof. reflexivity. Qed.
+
+Section JInd.
+  Variable P : jvalue -> Prop.
+  Hypothesis HNull : P JNull.
+  Hypothesis HBool : forall b0, P (JBool b0).
+  Hypothesis HNum : forall t, P (JNum t).
+  Hypothesis HStr : forall s, P (JStr s).
+  Hypothesis HArr : forall l, Forall P l -> P (JArr l).
+  Hypothesis HObj : forall m, Forall (fun kv => P (snd kv)) m -> P (JObj m).
+  Fixpoint jvalue_ind' (v : jvalue) : P v :=
+    match v with
+    | JNull => HNull | JBool b0 => HBool b0 | JNum t => HNum t | JStr s => HStr s
+    | JArr l => HArr l ((fix go (l : list jvalue) : Forall P l :=
+                           match l with
+                           | [] => Forall_nil _
+                           | x :: r => Forall_cons x (jvalue_ind' x) (go r)
+                           end) l)
+    | JObj m => HObj m ((fix go (m : list (bytes * jvalue)) : Forall (fun kv => P (snd kv)) m :=
+                           match m with
+                           | [] => Forall_nil _
+                           | kv :: r => Forall_cons kv (jvalue_ind' (snd kv)) (go r)
+                           end) m)
+    end.
+End JInd.
+
+Lemma depth_arr_in : forall l x, In x l -> depth x + 1 <= depth (JArr l).
+Proof.
+  intros l x H. cbn [depth]. induction l as [|y l IH]; [destruct H|]. simpl fold_right.
+  destruct H as [->|H]; [lia|]. specialize (IH H). lia.
+Qed.
+Lemma depth_obj_in : forall m kv, In kv m -> depth (snd kv) + 1 <= depth (JObj m).
+Proof.
+  intros m kv H. cbn [depth]. induction m as [|y m IH]; [destruct H|]. simpl fold_right.
+  destruct H as [->|H]; [lia|]. specialize (IH H). lia.
+Qed.
+
+(* ================= scanner equations ================= *)
+
+(* possible first bytes of an encoded value: n t f quote [ { - 0..9 *)
+Definition starts : list N := [110; 116; 102; 34; 91; 123; 45; 48; 49; 50; 51; 52; 53; 54; 55; 56; 57].
+
+Lemma skip_ws_nws : forall c r, is_ws c = false -> skip_ws (c :: r) = c :: r.
+Proof. intros c r H. unfold skip_ws. simpl. rewrite H. reflexivity. Qed.
+
+Lemma starts_nws : forall c, In c starts -> is_ws c = false.
+Proof. intros c H. simpl in H. repeat (destruct H as [H|H]; [subst c; reflexivity|]). destruct H. Qed.
+
+Lemma num_start_starts : forall c, num_start c = true -> In c starts.
+Proof.
+  unfold num_start, is_dig. intros c H. apply orb_true_iff in H. destruct H as [H|H].
+  - apply N.eqb_eq in H. subst c. simpl. repeat ((left; reflexivity) || right).
+  - apply andb_true_iff in H. destruct H as [H1 H2]. apply N.leb_le in H1, H2.
+    assert (E : c = 48 \/ c = 49 \/ c = 50 \/ c = 51 \/ c = 52 \/ c = 53 \/ c = 54 \/ c = 55 \/ c = 56 \/ c = 57) by lia.
+    repeat (destruct E as [E|E]; [subst c; simpl; repeat ((left; reflexivity) || right)|]).
+    subst c; simpl; repeat ((left; reflexivity) || right).
+Qed.
+
+Lemma sv_0 : forall d s, scan_value 0 d s = None.
+Proof. reflexivity. Qed.
+Lemma sv_null : forall f d k, scan_value (S f) d (110 :: 117 :: 108 :: 108 :: k) = Some (VNull, k).
+Proof. reflexivity. Qed.
+Lemma sv_true : forall f d k, scan_value (S f) d (116 :: 114 :: 117 :: 101 :: k) = Some (VBool true, k).
+Proof. reflexivity. Qed.
+Lemma sv_false : forall f d k, scan_value (S f) d (102 :: 97 :: 108 :: 115 :: 101 :: k) = Some (VBool false, k).
+Proof. reflexivity. Qed.
+Lemma sv_str : forall f d r,
+  scan_value (S f) d (34 :: r) =
+  match scan_string (S (length r)) r with Some (raw, k) => Some (VStr raw, k) | None => None end.
+Proof. reflexivity. Qed.
+Lemma sv_num : forall f d c r, num_start c = true ->
+  scan_value (S f) d (c :: r) =
+  match scan_number (c :: r) with Some (tok, k) => Some (VNum tok, k) | None => None end.
+Proof.
+  intros f d c r H.
+  assert (E : c = 45 \/ c = 48 \/ c = 49 \/ c = 50 \/ c = 51 \/ c = 52 \/ c = 53 \/ c = 54 \/ c = 55 \/ c = 56 \/ c = 57).
+  { unfold num_start, is_dig in H. apply orb_true_iff in H. destruct H as [H|H].
+    - apply N.eqb_eq in H. lia.
+    - apply andb_true_iff in H. destruct H as [H1 H2]. apply N.leb_le in H1, H2. lia. }
+  repeat (destruct E as [E|E]; [subst c; reflexivity|]). subst c; reflexivity.
+Qed.
+
+Lemma sv_arr_empty : forall f d k,
+  scan_value (S f) d (91 :: 93 :: k) = if max_depth <? d + 1 then None else Some (VArr [], k).
+Proof. reflexivity. Qed.
+Lemma sv_obj_empty : forall f d k,
+  scan_value (S f) d (123 :: 125 :: k) = if max_depth <? d + 1 then None else Some (VObj [], k).
+Proof. reflexivity. Qed.
+Lemma sv_arr : forall f d c r, In c starts ->
+  scan_value (S f) d (91 :: c :: r) =
+  if max_depth <? d + 1 then None else scan_elements f (d + 1) [] (c :: r).
+Proof.
+  intros f d c r H. simpl in H.
+  repeat (destruct H as [H|H]; [subst c; reflexivity|]). destruct H.
+Qed.
+Lemma sv_obj : forall f d r,
+  scan_value (S f) d (123 :: 34 :: r) =
+  if max_depth <? d + 1 then None else scan_members f (d + 1) [] (34 :: r).
+Proof. reflexivity. Qed.
+
+Lemma se_eq : forall f d acc s,
+  scan_elements (S f) d acc s =
+  match scan_value f d s with
+  | None => None
+  | Some (v, k) =>
+    match skip_ws k with
+    | 44 :: k2 => scan_elements f d (v :: acc) (skip_ws k2)
+    | 93 :: k2 => Some (VArr (rev (v :: acc)), k2)
+    | _ => None
+    end
+  end.
+Proof. reflexivity. Qed.
+
+Lemma se_comma : forall f d acc s v c r, In c starts ->
+  scan_value f d s = Some (v, 44 :: c :: r) ->
+  scan_elements (S f) d acc s = scan_elements f d (v :: acc) (c :: r).
+Proof.
+  intros f d acc s v c r Hc H. rewrite se_eq, H.
+  rewrite (skip_ws_nws 44) by reflexivity. cbv beta iota.
+  rewrite (skip_ws_nws c) by (apply starts_nws; exact Hc). reflexivity.
+Qed.
+
+Lemma se_close : forall f d acc s v k,
+  scan_value f d s = Some (v, 93 :: k) ->
+  scan_elements (S f) d acc s = Some (VArr (rev (v :: acc)), k).
+Proof.
+  intros f d acc s v k H. rewrite se_eq, H.
+  rewrite (skip_ws_nws 93) by reflexivity. reflexivity.
+Qed.
+
+Lemma sm_eq : forall f d acc r,
+  scan_members (S f) d acc (34 :: r) =
+  match scan_string (S (length r)) r with
+  | None => None
+  | Some (key, k1) =>
+    match skip_ws k1 with
+    | 58 :: k2 =>
+      let vs := skip_ws k2 in
+      match scan_value f d vs with
+      | None => None
+      | Some (v, k3) =>
+        let acc' := (key, v, vs, k3) :: acc in
+        match skip_ws k3 with
+        | 44 :: k4 => scan_members f d acc' (skip_ws k4)
+        | 125 :: k4 => Some (VObj (rev acc'), k4)
+        | _ => None
+        end
+      end
+    | _ => None
+    end
+  end.
+Proof. reflexivity. Qed.
+
+(* one member "key":value followed by a comma and the next key *)
+Lemma sm_comma : forall f d acc rawk c r v r2, body_ok rawk -> is_ws c = false ->
+  scan_value f d (c :: r) = Some (v, 44 :: 34 :: r2) ->
+  scan_members (S f) d acc (34 :: rawk ++ 34 :: 58 :: c :: r) =
+  scan_members f d ((rawk, v, c :: r, 44 :: 34 :: r2) :: acc) (34 :: r2).
+Proof.
+  intros f d acc rawk c r v r2 Hk Hc H. rewrite sm_eq.
+  rewrite scan_body by (exact Hk || (rewrite app_length; simpl; lia)).
+  rewrite (skip_ws_nws 58) by reflexivity. cbv beta iota zeta.
+  rewrite (skip_ws_nws c) by exact Hc. rewrite H.
+  rewrite (skip_ws_nws 44) by reflexivity. cbv beta iota.
+  rewrite (skip_ws_nws 34) by reflexivity. reflexivity.
+Qed.
+
+Lemma sm_close : forall f d acc rawk c r v k, body_ok rawk -> is_ws c = false ->
+  scan_value f d (c :: r) = Some (v, 125 :: k) ->
+  scan_members (S f) d acc (34 :: rawk ++ 34 :: 58 :: c :: r) =
+  Some (VObj (rev ((rawk, v, c :: r, 125 :: k) :: acc)), k).
+Proof.
+  intros f d acc rawk c r v k Hk Hc H. rewrite sm_eq.
+  rewrite scan_body by (exact Hk || (rewrite app_length; simpl; lia)).
+  rewrite (skip_ws_nws 58) by reflexivity. cbv beta iota zeta.
+  rewrite (skip_ws_nws c) by exact Hc. rewrite H.
+  rewrite (skip_ws_nws 125) by reflexivity. reflexivity.
+Qed.
+
+(* ================= the round trip ================= *)
+
+Lemma enc_start : forall v, wf_value v = true -> exists c r, encode_value v = c :: r /\ In c starts.
+Proof.
+  intros v H. destruct v as [|b0|t|s|l|m].
+  - exists 110. eexists. split; [reflexivity|]. simpl; tauto.
+  - destruct b0; [exists 116|exists 102]; eexists; (split; [reflexivity|]); simpl; tauto.
+  - simpl in H. destruct (num_ok_start t H) as [c [r [E Hc]]]. exists c, r. split; [exact E|].
+    apply num_start_starts. exact Hc.
+  - exists 34. eexists. split; [reflexivity|]. simpl; tauto.
+  - exists 91. eexists. split; [reflexivity|]. simpl; tauto.
+  - exists 123. eexists. split; [reflexivity|]. simpl; tauto.
+Qed.
+
+Definition scan_ok (v : jvalue) : Prop :=
+  forall k d fuel, follow_ok k -> d + depth v <= max_depth -> (length (encode_value v) < fuel)%nat ->
+  exists x, scan_value fuel d (encode_value v ++ k) = Some (x, k) /\ to_jvalue x = v.
+
+Lemma enc_list_start : forall x l, wf_value x = true ->
+  exists c r, enc_list (x :: l) = c :: r /\ In c starts.
+Proof.
+  intros x l H. destruct (enc_start x H) as [c [r [E Hc]]].
+  destruct l as [|y l]; [exists c, r; auto|].
+  rewrite enc_list_more, E. exists c. eexists. split; [reflexivity|exact Hc].
+Qed.
+
+Lemma elems_ok : forall l,
+  Forall (fun v => wf_value v = true -> scan_ok v) l -> forallb wf_value l = true -> l <> [] ->
+  forall acc k d fuel, (forall x, In x l -> d + depth x <= max_depth) ->
+  (S (length (enc_list l)) < fuel)%nat ->
+  exists xs, scan_elements fuel d acc (enc_list l ++ 93 :: k) = Some (VArr (rev acc ++ xs), k) /\
+             map to_jvalue xs = l.
+Proof.
+  induction l as [|x l IH]; intros HP Hwf Hne acc k d fuel Hd Hf; [congruence|].
+  inversion HP as [|x0 l0 HPx HPl]; subst x0 l0.
+  simpl in Hwf. apply andb_true_iff in Hwf. destruct Hwf as [Hwx Hwl].
+  destruct fuel as [|f]; [lia|].
+  destruct l as [|y l'].
+  - rewrite enc_list_one in Hf |- *.
+    destruct (HPx Hwx (93 :: k) d f) as [x' [Hs Hx']];
+      [reflexivity|apply Hd; left; reflexivity|lia|].
+    exists [x']. split; [|simpl; rewrite Hx'; reflexivity].
+    rewrite (se_close f d acc _ x' k Hs). reflexivity.
+  - rewrite enc_list_more in Hf |- *. rewrite !app_length in Hf. cbn [length] in Hf.
+    rewrite <- !app_assoc. cbn [app].
+    assert (Hwy : wf_value y = true) by (simpl in Hwl; apply andb_true_iff in Hwl; tauto).
+    destruct (enc_list_start y l' Hwy) as [c [r [E Hc]]].
+    rewrite E. cbn [app]. 
+    destruct (HPx Hwx (44 :: c :: r ++ 93 :: k) d f) as [x' [Hs Hx']];
+      [reflexivity|apply Hd; left; reflexivity|lia|].
+    rewrite (se_comma f d acc _ x' c _ Hc Hs).
+    change (c :: r ++ 93 :: k) with ((c :: r) ++ 93 :: k). rewrite <- E.
+    destruct (IH HPl Hwl ltac:(discriminate) (x' :: acc) k d f) as [xs [Hxs Hm]];
+      [intros; apply Hd; right; assumption|lia|].
+    exists (x' :: xs). split; [|simpl; rewrite Hx', Hm; reflexivity].
+    rewrite Hxs. simpl. rewrite <- app_assoc. reflexivity.
+Qed.
+
+Definition rec_kv (x : bytes * jv * bytes * bytes) : bytes * jvalue :=
+  match x with (k, v', _, _) => (unquote k, to_jvalue v') end.
+Lemma to_jvalue_obj : forall m, to_jvalue (VObj m) = JObj (map rec_kv m).
+Proof. reflexivity. Qed.
+
+Lemma enc_obj_start : forall y l, exists r2, enc_obj (y :: l) = 34 :: r2.
+Proof. intros [ky y] l. destruct l as [|z l]; eexists; [rewrite enc_obj_one|rewrite enc_obj_more]; reflexivity. Qed.
+
+Lemma membs_ok : forall m,
+  Forall (fun kv => wf_value (snd kv) = true -> scan_ok (snd kv)) m ->
+  forallb (fun kv => utf8_valid (fst kv) && wf_value (snd kv)) m = true -> m <> [] ->
+  forall acc k d fuel, (forall kv, In kv m -> d + depth (snd kv) <= max_depth) ->
+  (S (length (enc_obj m)) < fuel)%nat ->
+  exists recs, scan_members fuel d acc (enc_obj m ++ 125 :: k) = Some (VObj (rev acc ++ recs), k) /\
+               map rec_kv recs = m.
+Proof.
+  induction m as [|[key x] m IH]; intros HP Hwf Hne acc k d fuel Hd Hf; [congruence|].
+  inversion HP as [|x0 l0 HPx HPl]; subst x0 l0. cbn [snd] in HPx.
+  simpl in Hwf. apply andb_true_iff in Hwf. destruct Hwf as [Hwx Hwl].
+  apply andb_true_iff in Hwx. destruct Hwx as [Hkey Hwx].
+  destruct fuel as [|f]; [lia|].
+  destruct (enc_start x Hwx) as [c [r [E Hc]]].
+  pose proof (starts_nws c Hc) as Hws.
+  pose proof (enc_body_ok (length key) key) as Hbk.
+  destruct m as [|y m'].
+  - rewrite enc_obj_one in Hf |- *. unfold encode_string in Hf |- *.
+    rewrite !app_length in Hf. cbn [length] in Hf.
+    rewrite <- !app_assoc. cbn [app].
+    destruct (HPx Hwx (125 :: k) d f) as [x' [Hs Hx']];
+      [reflexivity|apply (Hd (key, x)); left; reflexivity|lia|].
+    rewrite E in Hs |- *. cbn [app] in Hs |- *.
+    rewrite (sm_close f d acc _ c _ x' k Hbk Hws Hs).
+    eexists [_]. split; [reflexivity|]. simpl. rewrite Hx', unquote_enc_str by exact Hkey. reflexivity.
+  - rewrite enc_obj_more in Hf |- *. unfold encode_string in Hf |- *.
+    rewrite !app_length in Hf. cbn [length] in Hf.
+    rewrite <- !app_assoc. cbn [app].
+    destruct (enc_obj_start y m') as [r2 E2].
+    destruct (HPx Hwx (44 :: 34 :: r2 ++ 125 :: k) d f) as [x' [Hs Hx']];
+      [reflexivity|apply (Hd (key, x)); left; reflexivity|lia|].
+    rewrite E2. rewrite E in Hs |- *. cbn [app] in Hs |- *.
+    rewrite (sm_comma f d acc _ c _ x' _ Hbk Hws Hs).
+    change (34 :: r2 ++ 125 :: k) with ((34 :: r2) ++ 125 :: k). rewrite <- E2.
+    destruct (IH HPl Hwl ltac:(discriminate) ((enc_str_f (length key) key, x', c :: r ++ 44 :: enc_obj (y :: m') ++ 125 :: k, 44 :: enc_obj (y :: m') ++ 125 :: k) :: acc) k d f) as [recs [Hr Hm]];
+      [intros; apply Hd; right; assumption|lia|].
+    rewrite Hr.
+    eexists (_ :: recs). split; [simpl; rewrite <- app_assoc; reflexivity|].
+    simpl. rewrite Hx', Hm, unquote_enc_str by exact Hkey. reflexivity.
+Qed.
+
+Lemma depth_le : forall d n, d + (1 + n) <= max_depth -> max_depth <? d + 1 = false.
+Proof. intros d n H. apply N.ltb_ge. lia. Qed.
+
+Lemma scan_ok_all : forall v, wf_value v = true -> scan_ok v.
+Proof.
+  induction v as [|b0|t|s|l IHl|m IHm] using jvalue_ind'; intros Hwf k d fuel Hk Hd Hf;
+    (destruct fuel as [|f]; [lia|]).
+  - exists VNull. split; reflexivity.
+  - destruct b0; [exists (VBool true)|exists (VBool false)]; split; reflexivity.
+  - simpl in Hwf. cbn [encode_value].
+    destruct (num_ok_start t Hwf) as [c [r [E Hc]]].
+    exists (VNum t). split; [|reflexivity].
+    pose proof (scan_number_tok t k Hwf Hk) as Hn.
+    rewrite E in Hn |- *. cbn [app] in Hn |- *.
+    rewrite sv_num by exact Hc. rewrite Hn. reflexivity.
+  - simpl in Hwf. cbn [encode_value]. unfold encode_string. rewrite <- !app_assoc. cbn [app].
+    exists (VStr (enc_str_f (length s) s)). split.
+    + rewrite sv_str. rewrite scan_enc_str by (rewrite app_length; simpl; lia). reflexivity.
+    + cbn [to_jvalue]. rewrite unquote_enc_str by exact Hwf. reflexivity.
+  - rewrite encode_arr in Hf |- *. rewrite <- !app_assoc. cbn [app].
+    rewrite !app_length in Hf. cbn [length] in Hf.
+    cbn [depth] in Hd. simpl in Hwf.
+    destruct l as [|x l'].
+    + exists (VArr []). split; [|reflexivity]. cbn [enc_list app].
+      rewrite sv_arr_empty, (depth_le d _ Hd). reflexivity.
+    + destruct (enc_list_start x l' ltac:(simpl in Hwf; apply andb_true_iff in Hwf; tauto)) as [c [r [E Hc]]].
+      destruct (elems_ok (x :: l')) with (acc := @nil jv) (k := k) (d := d + 1) (fuel := f) as [xs [Hs Hm]];
+        [ apply Forall_forall; intros y Hy Hwy; rewrite Forall_forall in IHl; apply IHl; assumption
+        | exact Hwf | discriminate
+        | intros y Hy; pose proof (depth_arr_in (x :: l') y Hy) as Hle; cbn [depth] in Hle; lia
+        | lia | ].
+      rewrite E in Hs |- *. cbn [app] in Hs |- *.
+      rewrite sv_arr by exact Hc. rewrite (depth_le d _ Hd), Hs.
+      exists (VArr xs). split; [reflexivity|]. cbn [to_jvalue]. rewrite Hm. reflexivity.
+  - rewrite encode_obj in Hf |- *. rewrite <- !app_assoc. cbn [app].
+    rewrite !app_length in Hf. cbn [length] in Hf.
+    cbn [depth] in Hd. simpl in Hwf.
+    destruct m as [|y m'].
+    + exists (VObj []). split; [|reflexivity]. cbn [enc_obj app].
+      rewrite sv_obj_empty, (depth_le d _ Hd). reflexivity.
+    + destruct (enc_obj_start y m') as [r2 E2].
+      destruct (membs_ok (y :: m')) with (acc := @nil (bytes * jv * bytes * bytes)) (k := k) (d := d + 1) (fuel := f)
+        as [recs [Hs Hm]];
+        [ apply Forall_forall; intros z Hz Hwz; rewrite Forall_forall in IHm; apply IHm; assumption
+        | exact Hwf | discriminate
+        | intros z Hz; pose proof (depth_obj_in (y :: m') z Hz) as Hle; cbn [depth] in Hle; lia
+        | lia | ].
+      rewrite E2 in Hs |- *. cbn [app] in Hs |- *.
+      rewrite sv_obj. rewrite (depth_le d _ Hd), Hs.
+      exists (VObj recs). split; [reflexivity|]. rewrite to_jvalue_obj, Hm. reflexivity.
+Qed.
+
+(* B: the scanner reads back exactly the encoder's output and stops where it ends *)
+Theorem scan_encode : forall v k d fuel, wf_value v = true -> follow_ok k ->
+  d + depth v <= max_depth -> (length (encode_value v) < fuel)%nat ->
+  exists x, scan_value fuel d (encode_value v ++ k) = Some (x, k) /\ to_jvalue x = v.
+Proof. intros v k d fuel Hwf. apply scan_ok_all. exact Hwf. Qed.
+Print Assumptions scan_encode.
+
+(* ================= C: whole documents ================= *)
+
+Lemma skip_ws_enc : forall v, wf_value v = true -> skip_ws (encode_value v) = encode_value v.
+Proof.
+  intros v H. destruct (enc_start v H) as [c [r [E Hc]]]. rewrite E.
+  apply skip_ws_nws. apply starts_nws. exact Hc.
+Qed.
+
+(* jparse supplies enough fuel: one more than the length of the text *)
+Theorem jparse_encode : forall v, wf_value v = true -> depth v <= max_depth ->
+  exists x, jparse (encode_value v) = Some x /\ to_jvalue x = v.
+Proof.
+  intros v Hwf Hd. unfold jparse. rewrite skip_ws_enc by exact Hwf.
+  destruct (scan_encode v [] 0 (S (length (encode_value v))) Hwf I) as [x [Hs Hx]]; [lia|lia|].
+  rewrite app_nil_r in Hs. rewrite Hs. exists x. split; [reflexivity|exact Hx].
+Qed.
+
+Theorem parse_encode : forall v, wf_value v = true -> depth v <= 10000 ->
+  parse (encode_value v) = Some v.
+Proof.
+  intros v Hwf Hd. unfold parse. destruct (jparse_encode v Hwf Hd) as [x [Hp Hx]].
+  rewrite Hp. simpl. rewrite Hx. reflexivity.
+Qed.
+
+Theorem encode_valid : forall v, wf_value v = true -> depth v <= 10000 ->
+  valid (encode_value v) = true.
+Proof.
+  intros v Hwf Hd. unfold valid. destruct (jparse_encode v Hwf Hd) as [x [Hp _]].
+  rewrite Hp. reflexivity.
+Qed.
+
+Print Assumptions parse_encode.
+Print Assumptions encode_valid.
